@@ -45,6 +45,9 @@ type Case struct {
 	// (fetched over HTTP); the probes carry that distribution point
 	ViaCDP  bool     `json:"via_cdp,omitempty"`
 	Serials []string `json:"serials"`
+	// Bulk (table-removed): this many further synthetic serials are listed, so that LevelDB keeps the list in several
+	// table files of which the restart opens only the one holding the metadata
+	Bulk int `json:"bulk,omitempty"`
 }
 
 const knownSwap = "C09-failed-swap-drops-entry"
@@ -60,16 +63,24 @@ func genCase(t *rapid.T) Case {
 	if c.Backend == "disk" {
 		// ("corrupt-journal" exists as a fault kind for replays, but is not drawn: LevelDB replays the journal into a table
 		// when the swapped-in store is reopened, so in every flow of the product the journal of a store in force is empty)
-		faults = append(faults, "corrupt-table", "corrupt-table", "table-removed")
+		faults = append(faults, "corrupt-table", "corrupt-table")
 	}
 	c.Fault = rapid.SampledFrom(faults).Draw(t, "fault")
-	if sab := rapid.IntRange(0, 99).Draw(t, "sabotage"); c.Backend == "disk" && (sab == 73 || sab == 37) { // (not an edge value: rapid favours those)
+	sab := rapid.IntRange(0, 99).Draw(t, "sabotage")
+	if c.Backend == "disk" && (sab == 11 || sab == 59) {
+		// rare (a list of 60000 entries is loaded): table files vanish after the restart
+		c.Fault = "table-removed"
+	}
+	if c.Backend == "disk" && (sab == 73 || sab == 37) { // (not an edge value: rapid favours those)
 		// rare (each case waits for the store's rename retries): the REAL swap of the disk back-end fails half-way
 		c.Fault = "swap-sabotage"
 		c.Site = rapid.SampledFrom([]string{"leveldb.update.start", "leveldb.update.old-closed", "leveldb.update.new-closed", "leveldb.update.old-moved", "leveldb.update.old-moved"}).Draw(t, "site")
 	}
 	c.N = rapid.IntRange(1, 12).Draw(t, "n")
 	c.Extra = rapid.SampledFrom([]int{0, 0, 1, 2, 3}).Draw(t, "extra")
+	if c.Fault == "table-removed" {
+		c.Bulk = 250000
+	}
 	if c.Fault == "corrupt-table" || c.Fault == "corrupt-journal" || c.Fault == "table-removed" {
 		c.N = rapid.IntRange(50, 400).Draw(t, "n_big")
 		c.Offset = rapid.IntRange(0, 1<<20).Draw(t, "offset")
@@ -131,6 +142,13 @@ func runCase(c Case, x *ev.Ctx) error {
 	os.MkdirAll(wd, 0o755)
 	pki := world.NewSimplePKI(fmt.Sprintf("c09-%d", caseSeq), "p256a", "")
 	crlFile := filepath.Join(dir, "list.crl")
+	if c.Bulk > 0 {
+		all := append([]string{}, c.Serials...)
+		for i := 0; i < c.Bulk; i++ {
+			all = append(all, fmt.Sprintf("b0%032x", uint64(i)*0x9e3779b97f4a7c15))
+		}
+		c.Serials = all
+	}
 	os.WriteFile(crlFile, pki.CRL(1, c.Serials...), 0o600)
 	opts := world.CRLOpts{WorkDir: wd, Disk: c.Backend == "disk", Strict: c.Strict, Trusted: []*x509.Certificate{pki.Root.Cert}}
 	plan := &world.FaultPlan{}
@@ -231,7 +249,7 @@ func runCase(c Case, x *ev.Ctx) error {
 	// probes: a few listed, one unlisted
 	var listed []*x509.Certificate
 	for i, s := range c.Serials {
-		if i < 6 || (c.Fault == "corrupt-table" || c.Fault == "corrupt-journal") && i%7 == 0 {
+		if i < 6 || (c.Fault == "corrupt-table" || c.Fault == "corrupt-journal") && i%7 == 0 || c.Fault == "table-removed" && i%997 == 0 {
 			listed = append(listed, pki.Leaf(s, cdp, nil).Cert)
 		}
 	}
@@ -364,6 +382,10 @@ func runCase(c Case, x *ev.Ctx) error {
 			// lazily): a plain I/O error (no such file), neither "closed" nor "corrupted"
 			for _, t := range tables {
 				os.Remove(t)
+			}
+			x.Classf("table-removed/tables=%d", len(tables))
+			if os.Getenv("VERIF_DEBUG") != "" {
+				fmt.Println("DEBUG tables removed:", len(tables), "listed probes:", len(listed))
 			}
 		}
 		ld2 := realStore(capf2.live[0]).(*crlstore.LevelDbStore)
